@@ -1,13 +1,11 @@
-import HH.Generated.SourceFacts
-import HH.Props.C16
+import HH.Props.FactsLib
 /-!
 # C17 (source half) — byte order / word size neutrality of the portable path, over the regenerated
 fact table
 -/
 namespace HH.C17
-open HH.Facts
+open HH.Facts HH.FactsLib
 
-def inP (f : Fact) : Bool := C16.portableFiles.contains f.file
 
 /-- every byte ⇄ integer conversion on the portable path is explicitly little-endian -/
 def allowedConv : List String := ["to_le_bytes", "from_le_bytes", "u64::from_le_bytes", "u32::from_le_bytes", "u64::to_le_bytes", "u32::to_le_bytes"]
@@ -20,12 +18,15 @@ theorem no_target_sensitive :
     (facts.all fun f => !(inP f && (f.kind == "target_cfg" || f.kind == "usize_sens" || f.kind == "ptr"))) = true := by
   decide +kernel
 
-/-- the only integer casts in non-test code of the portable path: lengths ≤ 32 widened/narrowed,
-`u32 → usize` of the checkpoint count, and the 32-bit halves of a lane -/
-def allowedCasts : List String :=
-  ["self.buffer.len() as u32", "len as usize", "*lane as u32", "(*lane >> 32) as u32", "bytes.len() as u64", "self.buffer.len() as u64"]
+/-- pointer-width-sensitive integer casts (to/from `usize`/`isize`, or of a `len()`) in non-test code
+of the portable path are exactly: lengths ≤ 32 widened/narrowed and `u32 → usize` of the checkpoint
+count (which is clamped to 31 right away); casts between fixed-width integers are not restricted -/
+def allowedSizeCasts : List String :=
+  ["self.buffer.len() as u32", "len as usize", "bytes.len() as u64", "self.buffer.len() as u64"]
 theorem casts_inventory :
-    (facts.all fun f => !(inP f && f.kind == "cast" && !f.test) || allowedCasts.contains f.detail) = true := by
+    (facts.all fun f => !(inP f && f.kind == "cast" && !f.test &&
+        (has f.detail "usize" || has f.detail "isize" || has f.detail "len()"))
+      || allowedSizeCasts.contains f.detail) = true := by
   decide +kernel
 
 theorem conv_nonvacuous : (facts.filter fun f => inP f && f.kind == "conv").length ≥ 4 := by decide +kernel
